@@ -201,7 +201,35 @@ def run(ctx: Context) -> None:
                 allowed |= SetEval(m, tables).ev(s.value)
             else:
                 raise AnalysisError("C20b: unsupported augmented assignment on ALLOWED (undecided)")
+    # the whitelist is applied with isinstance(): an admitted class admits all of its subclasses
+    import ast as _pyast
+    closure = set(allowed)
+    for name in sorted(allowed):
+        base = getattr(_pyast, name, None)
+        if isinstance(base, type):
+            for other in dir(_pyast):
+                o = getattr(_pyast, other)
+                if isinstance(o, type) and o is not base and issubclass(o, base) and issubclass(o, _pyast.AST):
+                    closure.add(other)
+    widened = sorted(closure - allowed)
+    if widened:
+        ctx.count("ALLOWED widened by isinstance() to subclasses", widened)
+    allowed = closure
     ctx.count("ALLOWED", sorted(allowed))
+    # accepted => evaluable: every admitted operator node is a key of the table _eval looks it up in
+    table_keys = {fam: set(t) for fam, t in tables.items()}
+    for fam, universe in (("BINOPS", OPERATOR_BASES["BINOPS"]), ("UNARYOPS", OPERATOR_BASES["UNARYOPS"]), ("CMPOPS", OPERATOR_BASES["CMPOPS"]),
+                          ("BOOLOPS", {"And", "Or"})):
+        admitted = allowed & universe
+        extra = sorted(admitted - table_keys.get(fam, set()))
+        key = f"{MOD}|ALLOWED|operators-of-{fam}-are-table-keys"
+        anode_ = m.assigns["ALLOWED"]
+        ctx.obligation("C20b", key, not extra, f"{ctx.relpath(m.path)}:{anode_.lineno}", admitted=sorted(admitted))
+        for e in extra:
+            ctx.violation("C20b", f"{MOD}|ALLOWED|operator-{e}-not-in-{fam}", m.path, anode_.lineno,
+                          f"the whitelist admits ast.{e} (isinstance also matches subclasses of an admitted base class) but {fam} has no entry "
+                          f"for it: the expression is accepted at construction and fails only when (and if) that operator is evaluated, "
+                          f"e.g. behind a short-circuit it is never rejected", f"ast.{e}")
     bad = sorted(allowed & FORBIDDEN)
     anode = m.assigns["ALLOWED"]
     ctx.obligation("C20b", f"{MOD}|ALLOWED|disjoint-from-forbidden", not bad, f"{ctx.relpath(m.path)}:{anode.lineno}",
@@ -714,6 +742,17 @@ def _check_compare(ctx, m, arm, p) -> None:
     if loop is None:
         raise AnalysisError("C20e: Compare arm has no loop (shape unreadable, undecided)")
     problems = []
+    # laziness first (independent of the loop's shape): no comparator may be evaluated by a comprehension / map over
+    # node.comparators, i.e. before the earlier links have been tested
+    for n in ast.walk(arm):
+        if isinstance(n, (ast.ListComp, ast.GeneratorExp, ast.SetComp)) and any(
+                f"{p}.comparators" in norm(g.iter) for g in n.generators) and any(
+                isinstance(c, ast.Call) and self_attr(c.func) == "_eval" for c in ast.walk(n.elt)):
+            ctx.obligation("C20e", key + "|lazy", False, f"{ctx.relpath(m.path)}:{n.lineno}")
+            ctx.violation("C20e", key + "|lazy", m.path, n.lineno,
+                          f"`{norm(n)[:70]}` evaluates every comparator before the first link is tested: Python stops a chained comparison at "
+                          f"the first false link, so `1 > 2 < x[9]` is False in Python but raises (or costs an evaluation) here", norm(n)[:90])
+            return
     it = loop.iter
     if not (isinstance(it, ast.Call) and dotted(it.func) == "zip" and [norm(a) for a in it.args] == [f"{p}.ops", f"{p}.comparators"]):
         problems.append(f"links are iterated as `{norm(it)}`, not zip({p}.ops, {p}.comparators)")
